@@ -470,7 +470,7 @@ def h_retry_rehandshake(c, same_hello):
 h_retry_rehandshake.must_cover = ["returned"]
 
 
-@harness(["C02", "C17"], "quic.packet_frames_end_to_end", functions=[QS + ".decrypt_packet", QS + ".handle_frame", QF + ".parse_frames", QF + ".NewConnectionIdFrame.__init__",
+@harness(["C02"], "quic.packet_frames_end_to_end", functions=[QS + ".decrypt_packet", QS + ".handle_frame", QF + ".parse_frames", QF + ".NewConnectionIdFrame.__init__",
                                                                      QF + ".StreamFrame.__init__"], cases=[(True,), (False,)], timeout=20000,
          inline=[QF + ".NewConnectionIdFrame.__init__", QF + ".StreamFrame.__init__", QF + ".Frame.__init__", QF + ".parse_frames"])
 def h_frames_end_to_end(c, isserver):
